@@ -81,6 +81,19 @@ func runCLI(t *testing.T, col *ev.Collector) {
 			}
 		}
 	}
+	// a file that failed half way and is then stepped over, or sits below the last applied version: `migrate set` to a
+	// later version (every partially applied revision up to it counts as applied afterwards), and a failure inside an
+	// out-of-order file run with --exec-order non-linear (its revision is partial without being the last one)
+	fixed := []CLICase{
+		{Dirty: true, Ops: []Op{{Kind: "add", V: "10", Fail: true}, {Kind: "apply", N: 2, Allow: true}, {Kind: "add", V: "60"}, {Kind: "apply", Order: 1, Allow: true}, {Kind: "add", V: "20"}, {Kind: "set", V: "20"}, {Kind: "apply", Allow: true}}},
+		{Ops: []Op{{Kind: "add", V: "10", Fail: true}, {Kind: "add", V: "20"}, {Kind: "add", V: "30"}, {Kind: "apply"}, {Kind: "set", V: "20"}, {Kind: "apply"}}},
+		{Ops: []Op{{Kind: "add", V: "30"}, {Kind: "add", V: "60"}, {Kind: "apply"}, {Kind: "add", V: "50"}, {Kind: "add", V: "40", Fail: true}, {Kind: "apply", Order: 2}, {Kind: "apply", Order: 2}, {Kind: "fix", V: "40"}, {Kind: "apply", Order: 2}}},
+	}
+	for _, c := range fixed {
+		if !ev.Each(col, "cli-fixed-histories", c, check, knownCLI) {
+			return
+		}
+	}
 	ev.Rapid(t, col, "cli-histories", col.N(40, 3000), genCLI, check, knownCLI)
 }
 
